@@ -558,6 +558,7 @@ type c28MPeer struct {
 type c28Model struct {
 	stored     map[int]*c28MPeer
 	conn       map[int]bool
+	lastForcedReq map[int]time.Time // last forced request_poll to the peer while unknown (same windows as lastRegReq)
 	lastRegReq map[int]time.Time // last non-forced request_poll to the peer while unknown; a disconnect of the peer or a restart starts a new window
 }
 
@@ -829,6 +830,7 @@ func (x *c28X) apply(o c28Op) error {
 		x.ln.mu.Unlock()
 		if !on {
 			delete(x.m.lastRegReq, o.Peer)
+			delete(x.m.lastForcedReq, o.Peer)
 		}
 	case "clock":
 		x.sweepFirst = o.SweepFirst
@@ -862,6 +864,7 @@ func (x *c28X) apply(o c28Op) error {
 		reloadBefore = before
 		x.stop(true)
 		x.m.lastRegReq = map[int]time.Time{}
+		x.m.lastForcedReq = map[int]time.Time{}
 		if err := x.boot(); err != nil {
 			return err
 		}
@@ -1013,6 +1016,7 @@ func (x *c28X) apply(o c28Op) error {
 			} else {
 				x.out("request:forced")
 			}
+			x.m.lastForcedReq[s.To] = s.At
 		default:
 			if !x.m.conn[s.To] {
 				x.out("info:request_to_unknown_disconnected_peer")
@@ -1027,6 +1031,17 @@ func (x *c28X) apply(o c28Op) error {
 				}
 			} else {
 				x.out("request:regular_first_in_window")
+			}
+			// a forced request starts a new interval as well: "at most once per request interval unless forced"
+			// exempts the forced request itself, not the ordinary one that follows it
+			if last, ok := x.m.lastForcedReq[s.To]; ok {
+				if gap := s.At.Sub(last); gap < c28RequestInterval {
+					x.violate("request_rate_limit_violated:forced=false:previous=forced",
+						fmt.Sprintf("request_poll to the unknown connected peer %s %s after a forced one (interval %s, this one not forced, no disconnect or restart in between)",
+							c28PeerNames[s.To], gap, c28RequestInterval))
+				} else {
+					x.out("request:regular_after_forced_interval")
+				}
 			}
 			x.m.lastRegReq[s.To] = s.At
 		}
@@ -1117,6 +1132,9 @@ func (x *c28X) key() (string, error) {
 		if t, ok := x.m.lastRegReq[i]; ok && now.Sub(t) < c28RequestInterval {
 			fmt.Fprintf(&b, " req=%s", now.Sub(t))
 		}
+		if t, ok := x.m.lastForcedReq[i]; ok && now.Sub(t) < c28RequestInterval {
+			fmt.Fprintf(&b, " freq=%s", now.Sub(t))
+		}
 		if t, ok := tbl[i]; ok && now.Sub(t) < c28RequestInterval {
 			fmt.Fprintf(&b, " tbl=%s", now.Sub(t))
 		}
@@ -1152,7 +1170,7 @@ func c28Exec(t *testing.T, w *c28Worker, seq []c28Op) (res c28Res) {
 	synctest.Test(t, func(*testing.T) {
 		x := &c28X{w: w, dir: w.dir, path: filepath.Join(w.dir, "peers.db"), own: uint64(swap.PEERSWAP_PROTOCOL_VERSION), res: &res,
 			ln: &c28Lightning{tbl: map[int]time.Time{}},
-			m:  &c28Model{stored: map[int]*c28MPeer{}, conn: map[int]bool{}, lastRegReq: map[int]time.Time{}}}
+			m:  &c28Model{stored: map[int]*c28MPeer{}, conn: map[int]bool{}, lastRegReq: map[int]time.Time{}, lastForcedReq: map[int]time.Time{}}}
 		for _, p := range c28PeerIDs {
 			id, _ := peersync.NewPeerID(p)
 			x.ids = append(x.ids, id)
@@ -1366,7 +1384,7 @@ func TestC28(t *testing.T) {
 		"'expired' = not heard from for more than 30 min (cleanup timeout of the code); removal is accepted only for disconnected peers whose stored capability is older than that, "+
 			"and demanded once a peer is disconnected, silent for more than 30 min and a full cleanup interval (1 min) has passed since; in between both outcomes are accepted",
 		"the request window of clause 4 is per peer and per connection: a disconnect of the peer or a restart of the node starts a new window; the request_poll of the initial sync at "+
-			"start and forced ones are not counted; request_poll to KNOWN peers with a stale capability is not covered by the clause",
+			"start are not counted, a forced one is exempt itself but starts an interval for the ordinary ones after it; request_poll to KNOWN peers with a stale capability is not covered by the clause",
 		"policy is nil (no suspicious peers) and no premium setting is configured",
 		"the Lightning port refuses to send to a peer that is not connected (as lnd and cln do); messages FROM a peer are accepted in any connection state (superset of the real environment)",
 		"message handling, explicit poll passes and ticks do not overlap, except for the one modelled overlap: a poll that arrives while a poll pass is sending to the same peer (racepoll)",
